@@ -138,8 +138,8 @@ func TestSemArraysTuplesNulls(t *testing.T) {
 			tables: []*Table{mkTable("profiles", "tree Array(Tuple(UInt64, UInt64, UInt64, Array(Tuple(String, Int64, Int64)))), functions Array(Tuple(UInt64, String))",
 				R(R(R(1, 0, 10, R(R("cpu:nanoseconds", 5, 7), R("mem:bytes", 1, 1))), R(2, 1, 11, R(R("cpu:nanoseconds", 3, 3)))), R(R(10, "main"), R(11, "f"))),
 				R(R(R(1, 0, 10, R(R("cpu:nanoseconds", 2, 4))), R(3, 1, 12, R(R("mem:bytes", 9, 9)))), R(R(10, "main"), R(12, "g"))))},
-			sql: `WITH raw as ( SELECT arrayMap(x -> (x.1, x.2, x.3, (arrayFirst(y -> y.1 == 'cpu:nanoseconds', x.4) as af).2, af.3), tree) as tree, functions FROM profiles),pre_joined as ( SELECT rtree FROM raw array JOIN raw.tree as rtree ),joined as ( SELECT (rtree.1, rtree.2, rtree.3, sum(rtree.4), sum(rtree.5)) as tree FROM pre_joined GROUP BY rtree.1, rtree.2, rtree.3 ORDER BY rtree.1 LIMIT 2000000) SELECT (select groupArray(tree) from joined) as _tree, (select groupUniqArrayArray(functions) from raw ) as _functions`,
-			want: []string{"[(1,0,10,7,11),(2,1,11,3,3),(3,1,12,0,0)]|[(10,'main'),(11,'f'),(12,'g')]"},
+			sql:   `WITH raw as ( SELECT arrayMap(x -> (x.1, x.2, x.3, (arrayFirst(y -> y.1 == 'cpu:nanoseconds', x.4) as af).2, af.3), tree) as tree, functions FROM profiles),pre_joined as ( SELECT rtree FROM raw array JOIN raw.tree as rtree ),joined as ( SELECT (rtree.1, rtree.2, rtree.3, sum(rtree.4), sum(rtree.5)) as tree FROM pre_joined GROUP BY rtree.1, rtree.2, rtree.3 ORDER BY rtree.1 LIMIT 2000000) SELECT (select groupArray(tree) from joined) as _tree, (select groupUniqArrayArray(functions) from raw ) as _functions`,
+			want:  []string{"[(1,0,10,7,11),(2,1,11,3,3),(3,1,12,0,0)]|[(10,'main'),(11,'f'),(12,'g')]"},
 			types: "Array(Tuple(UInt64, UInt64, UInt64, Int64, Int64))|Array(Tuple(UInt64, String))"},
 
 		// NULL semantics / logic
@@ -187,30 +187,30 @@ func TestSemCorpusShapes(t *testing.T) {
 	}
 	runCases(t, []semCase{
 		{name: "shape/log-stream-select", tables: tb,
-			sql: logSelect + `main as ( SELECT samples.timestamp_ns as timestamp_ns, samples.fingerprint as fingerprint, samples.string as string, toFloat64(0) as value FROM samples_v3 as samples PREWHERE ((samples.timestamp_ns) >= (1000)) and ((samples.timestamp_ns) < (3000)) and (type IN (1,0)) WHERE (samples.fingerprint IN (fp_sel)) and ((like(samples.string, '%t%')) == (1)) ORDER BY timestamp_ns desc LIMIT 100),_time_series as ( SELECT time_series.fingerprint as fingerprint, mapFromArrays(arrayMap(x -> x.1, JSONExtractKeysAndValues(time_series.labels, 'String') as rawlbls), arrayMap(x -> x.2, rawlbls)) as labels FROM time_series as time_series PREWHERE ((time_series.date) >= ('2023-11-13')) and (type IN (1,0)) and (time_series.fingerprint IN (fp_sel))),prefinal as ( SELECT main.fingerprint as fingerprint, main.timestamp_ns as timestamp_ns, _time_series.labels as labels, main.string as string, main.value as value FROM main ANY LEFT  JOIN _time_series ON (main.fingerprint) == (_time_series.fingerprint)) SELECT prefinal.fingerprint as fingerprint, prefinal.labels as labels, prefinal.string as string, prefinal.timestamp_ns as timestamp_ns FROM prefinal ORDER BY fingerprint desc, timestamp_ns desc`,
+			sql:  logSelect + `main as ( SELECT samples.timestamp_ns as timestamp_ns, samples.fingerprint as fingerprint, samples.string as string, toFloat64(0) as value FROM samples_v3 as samples PREWHERE ((samples.timestamp_ns) >= (1000)) and ((samples.timestamp_ns) < (3000)) and (type IN (1,0)) WHERE (samples.fingerprint IN (fp_sel)) and ((like(samples.string, '%t%')) == (1)) ORDER BY timestamp_ns desc LIMIT 100),_time_series as ( SELECT time_series.fingerprint as fingerprint, mapFromArrays(arrayMap(x -> x.1, JSONExtractKeysAndValues(time_series.labels, 'String') as rawlbls), arrayMap(x -> x.2, rawlbls)) as labels FROM time_series as time_series PREWHERE ((time_series.date) >= ('2023-11-13')) and (type IN (1,0)) and (time_series.fingerprint IN (fp_sel))),prefinal as ( SELECT main.fingerprint as fingerprint, main.timestamp_ns as timestamp_ns, _time_series.labels as labels, main.string as string, main.value as value FROM main ANY LEFT  JOIN _time_series ON (main.fingerprint) == (_time_series.fingerprint)) SELECT prefinal.fingerprint as fingerprint, prefinal.labels as labels, prefinal.string as string, prefinal.timestamp_ns as timestamp_ns FROM prefinal ORDER BY fingerprint desc, timestamp_ns desc`,
 			want: []string{`2|{'app':'y'}|c three|1500`, `1|{'app':'x','lvl':'err'}|b two|2500`}},
 		{name: "shape/rate-10s-sum-by", tables: tb,
 			sql: logSelect + `agg_a as ( SELECT samples.timestamp_ns as timestamp_ns, samples.fingerprint as fingerprint, samples.string as _string, toFloat64(0) as value FROM samples_v3 as samples PREWHERE ((samples.timestamp_ns) >= (0)) and ((samples.timestamp_ns) < (5000)) and (type IN (1,0)) WHERE (samples.fingerprint IN (fp_sel))),pre_without_2 as ( SELECT intDiv(time_series.timestamp_ns, 2000) * 2000 as timestamp_ns, fingerprint as fingerprint, '' as string, toFloat64(COUNT()) / 10.000000 as value FROM agg_a as time_series GROUP BY fingerprint, timestamp_ns),labels_1 as ( SELECT time_series.fingerprint as fingerprint, mapFilter((k,v) -> k NOT IN ('app'), mapFromArrays(arrayMap(x -> x.1, JSONExtractKeysAndValues(time_series.labels, 'String') as rawlbls), arrayMap(x -> x.2, rawlbls))) as labels, cityHash64(labels) as new_fingerprint FROM time_series as time_series PREWHERE ((time_series.date) >= ('2023-11-13')) and (type IN (1,0)) and (time_series.fingerprint IN (fp_sel))),lra_main as ( SELECT labels_1.new_fingerprint as fingerprint, pre_without_2.timestamp_ns as timestamp_ns, pre_without_2.value as value, '' as string, labels_1.labels as labels FROM pre_without_2 ANY LEFT  JOIN labels_1 ON (pre_without_2.fingerprint) == (labels_1.fingerprint)),prefinal as ( SELECT fingerprint as fingerprint, sum(lra_main.value) as value, lra_main.timestamp_ns as timestamp_ns, '' as string, any(lra_main.labels) as labels FROM lra_main GROUP BY fingerprint, timestamp_ns) SELECT prefinal.labels as labels, prefinal.value as value, prefinal.timestamp_ns as timestamp_ns FROM prefinal ORDER BY labels asc, timestamp_ns asc`,
 			// series 1 → labels {lvl:err}; series 2 → {} ; buckets of 2000 ns: s1: 0→1, 2000→1; s2: 0→1, 2000→1
 			want: []string{"{}|0.1|0", "{}|0.1|2000", "{'lvl':'err'}|0.1|0", "{'lvl':'err'}|0.1|2000"}},
 		{name: "shape/topk", tables: tb,
-			sql:  `WITH par_a as ( SELECT intDiv(timestamp_ns, 2000) * 2000 as timestamp_ns, fingerprint as fingerprint, '' as string, toFloat64(sum(value)) as value FROM samples_v3 GROUP BY fingerprint, timestamp_ns),par_b as ( SELECT par_a.timestamp_ns as timestamp_ns, arraySlice(arraySort(x -> (-x.1, x.2),groupArray((par_a.value, par_a.fingerprint))), 1, 2) as slice FROM par_a GROUP BY timestamp_ns),main as ( SELECT arr_b.2 as fingerprint, par_b.timestamp_ns as timestamp_ns, arr_b.1 as value, '' as string FROM par_b array JOIN par_b.slice as arr_b ) SELECT fingerprint, timestamp_ns, value FROM main ORDER BY timestamp_ns, value DESC`,
+			sql: `WITH par_a as ( SELECT intDiv(timestamp_ns, 2000) * 2000 as timestamp_ns, fingerprint as fingerprint, '' as string, toFloat64(sum(value)) as value FROM samples_v3 GROUP BY fingerprint, timestamp_ns),par_b as ( SELECT par_a.timestamp_ns as timestamp_ns, arraySlice(arraySort(x -> (-x.1, x.2),groupArray((par_a.value, par_a.fingerprint))), 1, 2) as slice FROM par_a GROUP BY timestamp_ns),main as ( SELECT arr_b.2 as fingerprint, par_b.timestamp_ns as timestamp_ns, arr_b.1 as value, '' as string FROM par_b array JOIN par_b.slice as arr_b ) SELECT fingerprint, timestamp_ns, value FROM main ORDER BY timestamp_ns, value DESC`,
 			// bucket 0: s1 = 1, s2 = 10 → top2: (10, 2), (1, 1); bucket 2000: s1 = 2, s2 = 20, s3 = 5 → (20, 2), (5, 3)
 			want: []string{"2|0|10", "1|0|1", "2|2000|20", "3|2000|5"}},
 		{name: "shape/prom-step-align", tables: tb,
-			sql:  `WITH spls as ( SELECT samples.fingerprint as fingerprint, samples.value as value, intDiv(samples.timestamp_ns, 100) as timestamp_ms FROM samples_v3 as samples WHERE ((samples.timestamp_ns) > (0)) and (type IN (1,0)) ORDER BY fingerprint asc, samples.timestamp_ns asc) SELECT fingerprint, argMax(spls.value, spls.timestamp_ms) as value, intDiv(spls.timestamp_ms - 5 + 20 - 1, 20) * 20 + 5 as timestamp_ms FROM spls GROUP BY timestamp_ms, fingerprint ORDER BY fingerprint asc, timestamp_ms asc`,
+			sql: `WITH spls as ( SELECT samples.fingerprint as fingerprint, samples.value as value, intDiv(samples.timestamp_ns, 100) as timestamp_ms FROM samples_v3 as samples WHERE ((samples.timestamp_ns) > (0)) and (type IN (1,0)) ORDER BY fingerprint asc, samples.timestamp_ns asc) SELECT fingerprint, argMax(spls.value, spls.timestamp_ms) as value, intDiv(spls.timestamp_ms - 5 + 20 - 1, 20) * 20 + 5 as timestamp_ms FROM spls GROUP BY timestamp_ms, fingerprint ORDER BY fingerprint asc, timestamp_ms asc`,
 			// timestamp_ms: 10, 25 (s1); 15, 39 (s2). aligned = intDiv(t - 5 + 19, 20) * 20 + 5: 10→25, 25→25, 15→25, 39→45
 			want: []string{"1|2|25", "2|10|25", "2|20|45"}},
 		{name: "shape/traceql-index-search", tables: traces,
 			sql:  `SELECT trace_id as trace_id, span_id as span_id, any(duration) as duration, any(timestamp_ns) as timestamp_ns FROM tempo_traces_attrs_gin as traces_idx WHERE (((date) >= ('2023-11-14')) and ((date) <= ('2023-11-14')) and ((traces_idx.timestamp_ns) >= (0)) and ((traces_idx.timestamp_ns) < (1000))) and ((((key) == ('a')) and ((val) == ('b'))) or (((key) == ('c')) and ((val) != ('zz')))) GROUP BY trace_id, span_id HAVING (((bitAnd(groupBitOr(bitShiftLeft(toUInt64(((key) == ('a')) and ((val) == ('b'))),0)+bitShiftLeft(toUInt64(((key) == ('c')) and ((val) != ('zz'))),1)) as bsCond,1)) != (0)) and ((bitAnd(bsCond,2)) != (0))) ORDER BY timestamp_ns desc`,
 			want: []string{pad("T1", 16) + "|" + pad("S1", 8) + "|5|100"}},
 		{name: "shape/traceql-full", tables: traces,
-			sql:  `WITH index_search as ( SELECT trace_id as trace_id, span_id as span_id, any(duration) as duration, any(timestamp_ns) as timestamp_ns FROM tempo_traces_attrs_gin as traces_idx WHERE (((date) >= ('2023-11-14')) and ((date) <= ('2023-11-14')) and ((traces_idx.timestamp_ns) >= (0)) and ((traces_idx.timestamp_ns) < (1000))) and ((((key) == ('a')) and ((val) == ('b')))) GROUP BY trace_id, span_id HAVING ((bitAnd(groupBitOr(bitShiftLeft(toUInt64(((key) == ('a')) and ((val) == ('b'))),0)) as bsCond,1)) != (0)) ORDER BY timestamp_ns desc),index_grouped as ( SELECT trace_id as trace_id, groupArray(100)(span_id) as span_id FROM index_search GROUP BY trace_id ORDER BY max(index_search.timestamp_ns) desc LIMIT 20),trace_ids as ( SELECT trace_id FROM index_grouped),trace_span_ids as ( SELECT trace_id, span_id FROM index_grouped array JOIN span_id ),traces_info as ( SELECT traces.trace_id as trace_id, min(traces.timestamp_ns) as _start_time_unix_nano, toFloat64(max(traces.timestamp_ns + traces.duration_ns) - min(traces.timestamp_ns)) / 1000000 as _duration_ms, argMin(traces.service_name, traces.timestamp_ns) as _root_service_name, argMin(traces.name, traces.timestamp_ns) as _root_trace_name FROM tempo_traces as traces WHERE (traces.trace_id IN (trace_ids)) GROUP BY traces.trace_id) SELECT lower(hex(traces.trace_id)) as trace_id, arrayMap(x -> lower(hex(x)), groupArray(traces.span_id)) as span_id, groupArray(traces.duration_ns) as duration, groupArray(traces.timestamp_ns) as timestamp_ns, min(_start_time_unix_nano) as start_time_unix_nano, min(_duration_ms) as duration_ms, min(_root_service_name) as root_service_name, min(_root_trace_name) as root_trace_name FROM tempo_traces as traces any left JOIN traces_info ON (traces.trace_id) == (traces_info.trace_id) WHERE (traces.trace_id IN (trace_ids)) and ((traces.trace_id, traces.span_id) IN (trace_span_ids)) GROUP BY traces.trace_id ORDER BY start_time_unix_nano desc LIMIT 20`,
+			sql: `WITH index_search as ( SELECT trace_id as trace_id, span_id as span_id, any(duration) as duration, any(timestamp_ns) as timestamp_ns FROM tempo_traces_attrs_gin as traces_idx WHERE (((date) >= ('2023-11-14')) and ((date) <= ('2023-11-14')) and ((traces_idx.timestamp_ns) >= (0)) and ((traces_idx.timestamp_ns) < (1000))) and ((((key) == ('a')) and ((val) == ('b')))) GROUP BY trace_id, span_id HAVING ((bitAnd(groupBitOr(bitShiftLeft(toUInt64(((key) == ('a')) and ((val) == ('b'))),0)) as bsCond,1)) != (0)) ORDER BY timestamp_ns desc),index_grouped as ( SELECT trace_id as trace_id, groupArray(100)(span_id) as span_id FROM index_search GROUP BY trace_id ORDER BY max(index_search.timestamp_ns) desc LIMIT 20),trace_ids as ( SELECT trace_id FROM index_grouped),trace_span_ids as ( SELECT trace_id, span_id FROM index_grouped array JOIN span_id ),traces_info as ( SELECT traces.trace_id as trace_id, min(traces.timestamp_ns) as _start_time_unix_nano, toFloat64(max(traces.timestamp_ns + traces.duration_ns) - min(traces.timestamp_ns)) / 1000000 as _duration_ms, argMin(traces.service_name, traces.timestamp_ns) as _root_service_name, argMin(traces.name, traces.timestamp_ns) as _root_trace_name FROM tempo_traces as traces WHERE (traces.trace_id IN (trace_ids)) GROUP BY traces.trace_id) SELECT lower(hex(traces.trace_id)) as trace_id, arrayMap(x -> lower(hex(x)), groupArray(traces.span_id)) as span_id, groupArray(traces.duration_ns) as duration, groupArray(traces.timestamp_ns) as timestamp_ns, min(_start_time_unix_nano) as start_time_unix_nano, min(_duration_ms) as duration_ms, min(_root_service_name) as root_service_name, min(_root_trace_name) as root_trace_name FROM tempo_traces as traces any left JOIN traces_info ON (traces.trace_id) == (traces_info.trace_id) WHERE (traces.trace_id IN (trace_ids)) and ((traces.trace_id, traces.span_id) IN (trace_span_ids)) GROUP BY traces.trace_id ORDER BY start_time_unix_nano desc LIMIT 20`,
 			want: []string{
 				hx("T3", 16) + "|['" + hx("S4", 8) + "']|[9]|[400]|400|0.000009|svcD|root3",
 				hx("T1", 16) + "|['" + hx("S1", 8) + "','" + hx("S2", 8) + "']|[500,50]|[100,200]|100|0.0005|svcA|root1"}},
 		{name: "shape/traceql-and-of-two-selectors", tables: traces,
-			sql:  `SELECT trace_id as trace_id, groupUniqArray(100)(span_id) as span_id FROM (WITH _0_pre_ as ( SELECT trace_id, groupArray(100)(span_id) as span_id, max(timestamp_ns) as max_timestamp_ns FROM tempo_traces_attrs_gin WHERE key = 'a' and val = 'b' GROUP BY trace_id) SELECT trace_id as trace_id, _span_id as span_id, max_timestamp_ns as max_timestamp_ns FROM _0_pre_ array JOIN _0_pre_.span_id as _span_id  INTERSECT WITH _1_pre_ as ( SELECT trace_id, groupArray(100)(span_id) as span_id, max(timestamp_ns) as max_timestamp_ns FROM tempo_traces_attrs_gin WHERE key = 'c' and val = 'd' GROUP BY trace_id) SELECT trace_id as trace_id, _span_id as span_id, max_timestamp_ns as max_timestamp_ns FROM _1_pre_ array JOIN _1_pre_.span_id as _span_id ) as _1a GROUP BY trace_id ORDER BY max(max_timestamp_ns) desc LIMIT 20`,
+			sql: `SELECT trace_id as trace_id, groupUniqArray(100)(span_id) as span_id FROM (WITH _0_pre_ as ( SELECT trace_id, groupArray(100)(span_id) as span_id, max(timestamp_ns) as max_timestamp_ns FROM tempo_traces_attrs_gin WHERE key = 'a' and val = 'b' GROUP BY trace_id) SELECT trace_id as trace_id, _span_id as span_id, max_timestamp_ns as max_timestamp_ns FROM _0_pre_ array JOIN _0_pre_.span_id as _span_id  INTERSECT WITH _1_pre_ as ( SELECT trace_id, groupArray(100)(span_id) as span_id, max(timestamp_ns) as max_timestamp_ns FROM tempo_traces_attrs_gin WHERE key = 'c' and val = 'd' GROUP BY trace_id) SELECT trace_id as trace_id, _span_id as span_id, max_timestamp_ns as max_timestamp_ns FROM _1_pre_ array JOIN _1_pre_.span_id as _span_id ) as _1a GROUP BY trace_id ORDER BY max(max_timestamp_ns) desc LIMIT 20`,
 			// selector a=b: T1 → [S1, S2] max 200, T3 → [S4]; selector c=d: T1 → [S1] max 100.
 			// rows (T1,S1,200) vs (T1,S1,100) differ in max_timestamp_ns → the INTERSECT is empty.
 			want: []string{}},
@@ -228,7 +228,49 @@ func TestSemCorpusShapes(t *testing.T) {
 			want: []string{"[('a','1')]|process_cpu:cpu:nanoseconds|('cpu','nanoseconds')", "[('a','1')]|process_cpu:cpu:nanoseconds|('samples','count')"}},
 		{name: "shape/profile-stats",
 			tables: []*Table{mkTable("profiles", "timestamp_ns UInt64", R(1699920000000000000), R(1700000000000000000)), mkTable("profiles_series", "date Date", R("2023-11-14"))},
-			sql:  `WITH non_empty as ( SELECT any(1::Int8) as non_empty FROM profiles),min_date as ( SELECT min(date) as min_date, max(date) as max_date FROM profiles_series),min_time as ( SELECT intDiv(min(timestamp_ns), 1000000) as min_time, intDiv(max(timestamp_ns), 1000000) as max_time FROM profiles WHERE ((timestamp_ns) < (toUnixTimestamp(( SELECT any(min_date + INTERVAL '1 day') FROM min_date)) * 1000000000)) or ((timestamp_ns) >= (toUnixTimestamp(( SELECT any(max_date) FROM min_date)) * 1000000000))) SELECT ( SELECT any(non_empty) FROM non_empty) as non_empty, ( SELECT any(min_time) FROM min_time) as min_date, ( SELECT any(max_time) FROM min_time) as min_time`,
-			want: []string{"1|1699920000000|1700000000000"}},
+			sql:    `WITH non_empty as ( SELECT any(1::Int8) as non_empty FROM profiles),min_date as ( SELECT min(date) as min_date, max(date) as max_date FROM profiles_series),min_time as ( SELECT intDiv(min(timestamp_ns), 1000000) as min_time, intDiv(max(timestamp_ns), 1000000) as max_time FROM profiles WHERE ((timestamp_ns) < (toUnixTimestamp(( SELECT any(min_date + INTERVAL '1 day') FROM min_date)) * 1000000000)) or ((timestamp_ns) >= (toUnixTimestamp(( SELECT any(max_date) FROM min_date)) * 1000000000))) SELECT ( SELECT any(non_empty) FROM non_empty) as non_empty, ( SELECT any(min_time) FROM min_time) as min_date, ( SELECT any(max_time) FROM min_time) as min_time`,
+			want:   []string{"1|1699920000000|1700000000000"}},
+	})
+}
+
+func TestSemMorePlannerShapes(t *testing.T) {
+	tb := []*Table{tSamples, tSeries, tGin, tMetrics}
+	lbl := `(SELECT fingerprint, timestamp_ns, value, string, mapFromArrays(arrayMap(x -> x.1, JSONExtractKeysAndValues(j.labels, 'String') as rawlbls), arrayMap(x -> x.2, rawlbls)) as labels FROM (SELECT s.fingerprint AS fingerprint, s.timestamp_ns AS timestamp_ns, s.value AS value, s.string AS string, t.labels AS labels FROM samples_v3 AS s ANY LEFT JOIN time_series AS t ON s.fingerprint = t.fingerprint) AS j)`
+	runCases(t, []semCase{
+		{name: "A2/unknown-escape-is-backslash-plus-char", sql: `SELECT 'a\\b' LIKE 'a\\b', 'ab' LIKE 'a\\b', 'a\\.c' LIKE 'a\\.c', 'a.c' LIKE 'a\\.c', 'a\\xc' LIKE 'a\\_c'`, want: []string{"1|0|1|0|0"}},
+		{name: "A5/alias-cycle-through-nested-alias", tables: tb,
+			// labels (unqualified) inside `… AS rawlbls` inside `… AS labels`: ClickHouse's QueryNormalizer reports a cycle
+			sql: `SELECT mapFromArrays(arrayMap(x -> x.1, JSONExtractKeysAndValues(labels, 'String') as rawlbls), arrayMap(x -> x.2, rawlbls)) as labels FROM time_series`, raise: "CYCLIC_ALIASES"},
+		{name: "shape/line-format", tables: tb,
+			sql:  `SELECT format('{0}/{1}!', labels['app'], labels['lvl']) as string FROM ` + lbl + ` AS samples ORDER BY timestamp_ns LIMIT 2`,
+			want: []string{"x/err!", "y/!"}},
+		{name: "shape/label-format", tables: tb,
+			sql:  `SELECT mapUpdate(labels, (['z','w'],[labels['app'],format('{0}-c', labels['lvl'])])::Map(String, String)) as labels FROM ` + lbl + ` AS samples WHERE fingerprint = 1 LIMIT 1`,
+			want: []string{"{'app':'x','lvl':'err','z':'x','w':'err-c'}"}},
+		{name: "shape/unwrap-quantile", tables: tb,
+			sql:  `WITH quant_a AS (SELECT fingerprint, timestamp_ns, toFloat64OrZero(labels['n']) + value as value, labels FROM ` + lbl + `) SELECT quant_a.fingerprint as fingerprint, intDiv(quant_a.timestamp_ns, 10000) * 10000 as timestamp_ns, quantile(0.500000)(value) as value, any(quant_a.labels) as labels FROM quant_a GROUP BY timestamp_ns, fingerprint ORDER BY fingerprint`,
+			want: []string{"1|0|1.5|{'app':'x','lvl':'err'}", "2|0|15|{'app':'y'}", "3|0|12|{'app':'z','n':'7'}"}},
+		{name: "shape/unwrap-first-last-stddev", tables: tb,
+			sql:  `WITH unwrap_1 AS (SELECT * FROM samples_v3) SELECT intDiv(timestamp_ns, 10000) * 10000 as timestamp_ns, fingerprint, '' as string, argMin(unwrap_1.value, unwrap_1.timestamp_ns) as value, argMax(unwrap_1.value, unwrap_1.timestamp_ns) AS l, stddevPop(unwrap_1.value) AS sd, sum(unwrap_1.value) / 10.000000 AS rate FROM unwrap_1 GROUP BY fingerprint, timestamp_ns ORDER BY fingerprint`,
+			want: []string{"0|1||1|2|0.5|0.3", "0|2||10|20|5|3", "0|3||5|5|0|0.5"}},
+		{name: "shape/comparison-having", tables: tb,
+			sql:  `SELECT fingerprint as fingerprint, avg(s.value) as value FROM samples_v3 AS s GROUP BY fingerprint HAVING ((value) > (1.500000)) ORDER BY fingerprint`,
+			want: []string{"2|15", "3|5"}},
+		{name: "shape/prom-labels-hash", tables: tb,
+			sql:  `SELECT cityHash64(toString(arraySort(spls.labels))) = cityHash64('[(\'app\',\'x\'),(\'lvl\',\'err\')]'), toString(arraySort(spls.labels)) FROM (SELECT JSONExtractKeysAndValues(labels, 'String') AS labels FROM time_series WHERE fingerprint = 1) AS spls`,
+			want: []string{"1|[('app','x'),('lvl','err')]"}},
+		{name: "shape/downsample-partial-union-finalize", tables: tb,
+			sql:  `SELECT fingerprint as fingerprint, argMaxMerge(value) as value, timestamp_ms as timestamp_ms FROM ( SELECT samples.fingerprint as fingerprint, argMaxMergeState(samples.last) as value, intDiv(samples.timestamp_ns, 100) as timestamp_ms FROM metrics_15s as samples WHERE fingerprint = 1 GROUP BY timestamp_ms, fingerprint UNION ALL SELECT samples.fingerprint as fingerprint, argMaxMergeState(samples.last) as value, intDiv(samples.timestamp_ns, 100) as timestamp_ms FROM metrics_15s as samples WHERE fingerprint = 2 GROUP BY timestamp_ms, fingerprint) GROUP BY fingerprint, timestamp_ms ORDER BY fingerprint, timestamp_ms`,
+			want: []string{"1|2|0", "2|7|0"}},
+		{name: "shape/downsample-avg-tuple", tables: tb,
+			sql:  `SELECT fingerprint, sum(value.1) / sum(value.2) AS value FROM (SELECT fingerprint, (sum(sum), countMerge(count)) AS value FROM metrics_15s GROUP BY fingerprint, timestamp_ns) GROUP BY fingerprint ORDER BY fingerprint`,
+			want: []string{"1|3", "2|7"}},
+		{name: "shape/profiles-size", tables: []*Table{mkTable("profiles", "fingerprint UInt64, payload String", R(1, "abc"), R(2, "de"), R(1, ""))},
+			sql: `SELECT sum(length(payload)::Int64), uniqExact(fingerprint)::Int64, COUNT(1) FROM profiles`, want: []string{"5|2|3"}, types: "Int64|Int64|UInt64"},
+		{name: "shape/series-union-of-selectors", tables: tb,
+			sql:  `WITH fp_sel as ( SELECT fingerprint FROM time_series_gin WHERE ((((key) == ('app')) and ((val) == ('x')))) GROUP BY fingerprint HAVING ((groupBitOr(bitShiftLeft(((key) == ('app')) and ((val) == ('x')), 0))) == (1)) UNION ALL  SELECT fingerprint FROM time_series_gin WHERE ((((key) == ('n')) and ((match(val, '[0-9]')) == (1)))) GROUP BY fingerprint HAVING ((groupBitOr(bitShiftLeft(((key) == ('n')) and ((match(val, '[0-9]')) == (1)), 0))) == (1))) SELECT  DISTINCT labels as labels FROM time_series as time_series WHERE ((date) >= ('2023-11-13')) and (fingerprint IN (fp_sel)) and (type IN (1,2,0)) ORDER BY labels LIMIT 10000`,
+			want: []string{`{"app":"x","lvl":"err"}`, `{"app":"z","n":"7"}`}},
+		{name: "fn/unimplemented-real-function-is-unsupported", sql: `SELECT sipHash64('a')`, unsup: true},
+		{name: "fn/unimplemented-real-aggregate-is-unsupported", sql: `SELECT topK(3)(x) FROM (SELECT 1 AS x)`, unsup: true},
 	})
 }
